@@ -538,6 +538,30 @@ func TestPairBodies(t *testing.T) {
 				pbt.Fail(t, "state", c, "function body with %s in %s: %v", ch.Name, ctx.Name, err)
 			}
 			pbt.CaseExact(true, "pair-body")
+			// the same body as the single expression of a lambda (the saved form is name=(params)=>body, where a body
+			// that starts with a map literal must keep its braces apart from a block's)
+			lam := gen.Assign("pl", gen.Lambda([]string{"a", "b", "c", "d", "y", "z"}, false, ctx.Wrap(ch.Make())))
+			cl := Case{Defs: []string{"f = q => q * 2", gen.Print([]*gen.Node{lam}, gen.PrintOptions{})},
+				Calls: []string{"println(catch(pl(10, 1, 2, 3, 4, 5)))", "println(catch(pl([1, 2, 3], 1, 0, 2, 0, 1)))", "println(catch(pl({\"k\": 1}, \"k\", true, false, 1, 2)))"}}
+			if _, err := check(cl); err != nil {
+				pbt.Fail(t, "state", cl, "lambda body with %s in %s: %v", ch.Name, ctx.Name, err)
+			}
+			pbt.CaseExact(true, "pair-lambda-body")
+		}
+	}
+	// bodies that start with a map literal, in every position a printer has to look through to see it
+	starts := []string{`({"r": 1, "g": 2})[k]`, `({"r": 1, "g": 2}).r`, `({"r": 1})[k] + 1`, `({"r": [1, 2]}).r[0]`, `({"r": x => x}).r(k)`, `({"r": 1})`, `({"r": 1}) + {"g": k}`, `({"r": 1}).r == k`,
+		`({1: 2})[1] * 3 - k`, `({"r": {"g": 7}}).r.g`, `({})`, `({"r": 1})[k] || true`, `[{"r": 1}[k]]`, `-({"r": 1}).r`}
+	for i, b := range starts {
+		if !pbt.Mine(i) {
+			continue
+		}
+		for _, form := range []string{"pm = k => %s", "pm = (k) => %s", "pm = (k, j) => %s", "pm = func(k) { %s }", "func pm(k) { %s }", "pm = k => { %s }", "pm = k => j => %s"} {
+			c := Case{Defs: []string{fmt.Sprintf(form, b)}, Calls: []string{`println(catch(pm("r")))`, `println(catch(pm("g", 1)))`, `println(catch(pm(1)(2)))`}}
+			if _, err := check(c); err != nil {
+				pbt.Fail(t, "state", c, "body starting with a map literal (%s): %v", b, err)
+			}
+			pbt.CaseExact(true, "map-start-body")
 		}
 	}
 }
